@@ -260,6 +260,24 @@ pub fn run_synth(a: &Args) {
         // the same image through the Coq model when it is small enough to evaluate quickly
         if img.len() < 3000 { let mut l = Line::new("c14"); l.bytes(&img); out.case(l.s(), &got, true); out.count("synth.model_compared"); }
     }
+    // SONAME of well-formed images, every length around the file-name limit and well beyond it, from memory and from a file
+    for len in [1usize, 2, 11, 63, 64, 254, 255, 256, 257, 300, 1000, 4095, 4096, 5000] {
+        let name: String = (0..len).map(|i| (b'a' + ((i * 7 + len) % 26) as u8) as char).collect();
+        let id: Vec<u8> = (0..20).map(|_| rng.next() as u8).collect();
+        let text: Vec<u8> = (0..48).map(|_| rng.next() as u8).collect();
+        let img = crate::c08::synth_so(&text, Some(&id), Some(&name));
+        let path = std::path::PathBuf::from(format!("{}/soname-{len}.so", a.out)); let _ = std::fs::write(&path, &img);
+        let (i1, p2) = (img.clone(), path.clone());
+        let mem = quiet_catch(move || SoName::read_from_module((&i1[..]).into()).ok().map(|x| x.0.into_bytes()));
+        let fil = quiet_catch(move || SoName::read_from_file(&p2).ok().map(|x| x.0.into_bytes()));
+        let _ = std::fs::remove_file(&path);
+        for (how, got) in [(0u64, mem), (1, fil)] {
+            let mut l = Line::new("const"); l.z(len).u(how).u(1).vec(name.as_bytes());
+            let mut r = Line::bare(); r.z(len).u(how);
+            match got { Ok(Some(v)) => { r.u(1).vec(&v); } Ok(None) => { r.u(0).u(0); } Err(_) => { r.u(2).u(0); } }
+            out.case(l.s(), r.s(), true); out.count("synth.soname");
+        }
+    }
     out.finish(&a.out, "well-formed synthetic ELF64 images (no program headers): an executable PROGBITS section of size {1..12289} at file offsets {0x40..0x2345, aligned and not}, with no note / a 4-aligned / an 8-aligned GNU build-id note; expected id computed by construction (note descriptor, else XOR-fold of the first 4096 text bytes); small images also go through the Coq model");
 }
 
